@@ -112,6 +112,19 @@ func c16(c *Ctx) {
 	// one critical section — otherwise installation can find the registration live while an Unregister is already under way
 	if fn := c.Fn(gx, "R1", "(*registration).Unregister"); fn != nil {
 		fU := lookupField(gx.Pkg, "registration", "unreg")
+		// read-and-clear may be a helper of its own (takeUnreg): it is then that function's critical section that is judged
+		fn, _ = gx.workFunc(fn, func(n ast.Node) bool {
+			as, ok := n.(*ast.AssignStmt)
+			if !ok {
+				return false
+			}
+			for _, l := range as.Lhs {
+				if isField(info, l, fU) {
+					return true
+				}
+			}
+			return false
+		})
 		g := gx.FG(fn)
 		mu := varKey(fn.Recv()) + resolvePath(gx.Pkg, "registration", ".unregMu")
 		var reads, clears []*GNode
@@ -283,8 +296,24 @@ func c16(c *Ctx) {
 				// the forward must happen on every path on which the loaded delegate is non-nil (negative form)
 				good := len(fw) == 1 && loads == 1
 				if good {
+					// comma-ok flags of a type assertion on the loaded delegate: false exactly when nothing (of that type) is stored,
+					// i.e. when no delegate is installed — the delegate's only writer stores that very type
+					okFlags := map[types.Object]bool{}
+					inspectNoLit(m.Body(), func(nd ast.Node) bool {
+						if as, isAs := nd.(*ast.AssignStmt); isAs && len(as.Lhs) == 2 && len(as.Rhs) == 1 {
+							if ta, isTA := unparen(as.Rhs[0]).(*ast.TypeAssertExpr); isTA && fieldMethodCall(info, unparen(ta.X), fD, "Load") != nil {
+								if o := objOf(info, as.Lhs[1]); o != nil {
+									okFlags[o] = true
+								}
+							}
+						}
+						return true
+					})
 					s, _ := g.ReachFromEntry(func(x *GNode) bool { return x == fw[0] }, func(e *GEdge) bool {
 						return edgeImplies(e, func(cnd ast.Expr, pol int) bool {
+							if id, isID := cnd.(*ast.Ident); isID && pol < 0 && okFlags[info.Uses[id]] {
+								return true
+							}
 							nn, ok := nilCmp(info, cnd, pol, func(ast.Expr) bool { return true })
 							return ok && !nn
 						})
@@ -320,12 +349,26 @@ func c16(c *Ctx) {
 			call, ok := n.(*ast.CallExpr)
 			return ok && isCallTo(info, call, "("+otelGlobal+".delegatedInstrument).setDelegate")
 		})
-		reg := g.Match(callToDecl(info, gx.Func("(*registration).setDelegate")))
+		regSD := callToDecl(info, gx.Func("(*registration).setDelegate"))
+		reg := g.Match(regSD)
+		gReg := g
+		if len(reg) == 0 {
+			// the walk over the registry may have been moved into a helper that setDelegate calls (with the lock held) on every path
+			if w, _ := gx.workFunc(fn, regSD); w != nil && w != fn {
+				hc := g.Match(callToDecl(info, w))
+				if len(hc) == 1 {
+					if s, _ := g.ReachFromEntry(func(x *GNode) bool { return x == hc[0] }, nil); !s[g.Exit] {
+						gReg = gx.FG(w)
+						reg = gReg.Match(regSD)
+					}
+				}
+			}
+		}
 		good := len(inst) == 1 && len(reg) == 1
 		why := ""
 		if good {
 			ok1, w1 := totalFanout(g, inst[0])
-			ok2, w2 := totalFanout(g, reg[0])
+			ok2, w2 := totalFanout(gReg, reg[0])
 			good, why = ok1 && ok2, w1+w2
 		}
 		c.Check(good, "R4", "global|(*meter).setDelegate|every instrument and every registration is connected", at(gx.M, fn.Pos()), "two total loops", "an instrument or callback registered before installation is skipped: "+why)
